@@ -9,7 +9,7 @@ from C02 import setup_spec
 
 THEOREMS = 'IsoTp.Props.C04'
 RULE = ('operation histories over the alphabet {FC ContinueToSend bs=0 / bs=1 / bs=2+stmin 1 ms, FC Wait, FC Overflow, FC with reserved STmin, '
-        'garbage, a First Frame of the peer read by process(rx only), process(), process(tx only), tick 0.4 ms, tick beyond N_Bs} applied from six starting states (idle, waiting for the first '
+        'garbage, a First Frame of the peer read by process(rx only), process(), process(tx only), tick 0.4 ms, tick of exactly N_Bs, tick beyond N_Bs} applied from six starting states (idle, waiting for the first '
         'Flow Control, mid-block with unlimited grant, mid-block of a granted block of 3 with STmin 5 ms, rate-limiter SF standby, rate-limiter FF standby): EXHAUSTIVE for all histories of length <= 3 (quick) / '
         '<= 4 (thorough, plus sampled length 5-7), with wftmax in {0,1,3} and a second queued message; plus long random histories. Oracle: '
         'no Consecutive Frame before the first ContinueToSend; never more Consecutive Frames than the largest block size granted since the '
@@ -42,7 +42,7 @@ def letters(pfx, rid, ext, tbs_ns):
         'wait': [fc(1, 0), [0, 'proc', 1, 1]], 'ovf': [fc(2, 0), [0, 'proc', 1, 1]], 'rsv': [fc(0, 0, 0x80), [0, 'proc', 1, 1]],
         'garb': [[0, 'rx', rid, int(ext), hx(pfx + bytes([0x3F]))], [0, 'proc', 1, 1]],
         'proc': [[0, 'proc', 1, 1]], 'ptx': [[0, 'proc', 0, 1]],
-        't_small': [[0, 'tick', 400000]], 't_big': [[0, 'tick', tbs_ns + 7]],
+        't_small': [[0, 'tick', 400000]], 't_big': [[0, 'tick', tbs_ns + 7]], 't_exact': [[0, 'tick', tbs_ns]],
         'cts3s': [fc(0, 3, 5), [0, 'proc', 1, 1]], 't_st': [[0, 'tick', 5100000], [0, 'proc', 1, 1]],
         '2cts': [fc(0, 0), fc(0, 1), [0, 'proc', 1, 1]],
         'wait3': [fc(1, 0), [0, 'proc', 1, 1], fc(1, 0), [0, 'proc', 1, 1], fc(1, 0), [0, 'proc', 1, 1]],
@@ -137,7 +137,7 @@ def oracle(case, lines, insts):
             items = fed[consumed - r_now:consumed]
             if any(it[0] != 'cts' for it in items):
                 obeyed_due = None       # a Wait frame may send the sender back to waiting, other frames may end the transmission
-            elif r_now and int(op[2]) == 1 and int(op[3]) == 1 and last_data_t is not None and now < last_data_t + tbs_ns and 'trans=1' in l:
+            elif r_now and int(op[2]) == 1 and int(op[3]) == 1 and last_data_t is not None and now <= last_data_t + tbs_ns and 'trans=1' in l:
                 obeyed_due = obeyed_due or (opi, now, last_data_t + tbs_ns)
         if emitted_data:
             last_data_t = now
@@ -248,5 +248,5 @@ def run_shard(campaign, shard, nshards, seed, tier):
 def run(ctx):
     run_sharded(ctx, 'C04', 'exhaustive')
     run_sharded(ctx, 'C04', 'random')
-    ctx.exhaustive['all flow-control histories up to length %s over the 16-letter alphabet from each starting state' % ('2' if ctx.quick else '3')] = True
+    ctx.exhaustive['all flow-control histories up to length %s over the 17-letter alphabet from each starting state' % ('2' if ctx.quick else '3')] = True
     return RULE, ASSUME
